@@ -71,3 +71,27 @@ CHECKS = {
               "Held on the inputs observed per entry point (40+ entry points x ~700 / ~40000 mutants x 2 lanes).",
               "A 4 s (quick) / 20 s (thorough) no-progress bound on microsecond operations decides 'fails to terminate'; entry points that hang repeatedly are cut short once reported."),
 }
+
+
+# additions made after the seeded-change rounds (DESIGN.md 9.3): appended to the technique descriptions above
+_ADDED = {
+    "C02": "; live-tree phase (files rewritten / deleted / re-created / re-pointed while one server runs), shuffled request order, served directories with odd names, files above 64 MiB over real sockets",
+    "C04": "; chunked / dictionary / repetition-bomb request families; servers on ::1 and with a 128 KiB buffer; late senders; virtual-time calendar phase (LD_PRELOAD clock shim); libFuzzer lane on Server::process (thorough)",
+    "C05": "; slow readers (2 KiB window) and a 24 MiB download paused for 18 s on real sockets",
+    "C06": "; failing handlers over real sockets (vh srv: the real accept loop with an application that panics / errs / stalls on request), descriptor limit, stalled readers, virtual-time clock jumps; thorough: 70 s of real idleness",
+    "C07": "; tasks that panic with 12 payload kinds followed by a rendezvous; a rendezvous of 300 workers",
+    "C08": "; aged-vs-fresh server differential (history + clock jumps), cold-start simultaneous first requests vs a warm server, 90k-request hammer with client processes",
+    "C11": "; cold concurrent first use in fresh processes (vh coldrace) and cold-start simultaneous first requests on the binary under a restricted policy",
+    "C12": "; settings observed again after the config file is touched while serving; every worker of a configured pool must serve",
+    "C13": "; one server living through clock jumps of a minute .. a year (LD_PRELOAD clock shim)",
+    "C14": "; size sweeps around powers of two and exact buffer-sized totals; rejected inputs interleaved in-process; cold concurrent first use",
+    "C15": "; rejected inputs interleaved in-process; cold concurrent first use",
+    "C16": "; rejected inputs interleaved in-process; cold concurrent first use",
+    "C17": "; rejected inputs interleaved in-process; size sweeps (values to 8 KiB, 1200 fields)",
+    "C18": "; encoder-only pass to 1 MiB (4 MiB); wrapped text must be rejected; cold concurrent first use in fresh processes",
+    "C19": "; float sweep in the executor (thorough: all 2^32 f32 bit patterns); wide collections; cold concurrent first use",
+    "C20": "; repetition bombs to 250 KB / 1 MB, special-character inserts at every position, RFC 6266/5987/2231 seeds; libFuzzer lane (thorough)",
+}
+for _k, _extra in _ADDED.items():
+    CHECKS[_k]["technique"] += _extra
+CHECKS["C07"]["note"] = CHECKS["C07"]["note"].replace("Hook commit 82a0c2f (add-only, off by default).", "Hook commits 82a0c2f, f825266 (add-only, off by default).")
